@@ -50,6 +50,12 @@ def sameInstr (it : Item) (got : Dec) : Bool :=
     | [.reg ⟨.gpr64, n⟩, .imm 64 v], [.reg ⟨.gpr32, n'⟩, .imm 32 v'] => n == n' && v == v' && v < 2 ^ 32
     | _, _ => false)
 
+/-- a stack pointer is written as the index register (second register, no scale) -/
+def stackIndex (it : Item) : Bool :=
+  it.want.ops.any fun o => match o with
+    | .mem m => m.index == some 4
+    | _ => false
+
 /-- AssemblyLine's operand-kind letter of an operand -/
 def kindOf : Opnd → Nat
   | .reg r => (match r.file with | .xmm => 118 | .ymm => 121 | _ => 114)
